@@ -400,6 +400,11 @@ Theorem C03_no_table_successor :
     state_eq s1 (successor eps (d_types d) objs (strip_action (spec_action a effs)) args s).
 Proof. exact no_table_successor. Qed.
 
+(* an EMPTY table is a table: the Operator of a problem without objects ranges over the domain's constants (C03_successor & co. apply
+   with objs := quantification_objects d [] - what the correspondence check passes to the model for such problems) *)
+Theorem C03_empty_table_is_constants : forall d : mdomain, quantification_objects d [] = d_consts d.
+Proof. exact empty_table_is_constants. Qed.
+
 Theorem C03_no_table_oracle : forall eps tt objs A args s,
   successor eps tt objs (strip_action A) args s = successor eps tt [] A args s /\
   applicable eps tt objs (strip_action A) args s = applicable eps tt [] A args s.
@@ -410,6 +415,7 @@ Print Assumptions C03_shadow_example.
 Print Assumptions C03_no_table_is_empty_table.
 Print Assumptions C03_no_table_successor.
 Print Assumptions C03_no_table_oracle.
+Print Assumptions C03_empty_table_is_constants.
 Print Assumptions C03_inconsistent_oracle_sound.
 Print Assumptions C03_inconsistent_model_passes.
 Print Assumptions C03_repeated_application.
